@@ -17,6 +17,7 @@ var Groups = []Group{
 	{Name: "recover", Props: []string{"C25", "C21", "C20", "C22"}, Gen: GenRecover},
 	{Name: "upgrade", Props: []string{"C25", "C21", "C20", "C22"}, Gen: GenUpgrade},
 	{Name: "verify", Props: []string{"C24"}, Gen: GenVerify},
+	{Name: "power", Props: []string{"C24"}, Gen: GenPower},
 }
 
 // Viol is a property-level failure found by a monitor on the implementation.
@@ -47,6 +48,11 @@ func (e *Env) Replay(in M) {
 	f, _ := in["f"].(string)
 	if isRaw(f) {
 		e.DoRaw(in)
+		return
+	}
+	if isLvPure(f) {
+		// verdicts of the CometBFT library on signed material cannot be rebuilt from the symbolic request
+		e.emit(in, M{"bad": "lv.* cases are not replayable"})
 		return
 	}
 	e.Do(in)
